@@ -111,17 +111,24 @@ func vpH_C15_frozen() {
 			bmWant = append(bmWant, uint32(i))
 		}
 	}
-	k := vpChoice("op", len(vpReadOpNames)+3)
+	k := vpChoice("op", len(vpReadOpNames)+4)
 	switch {
-	case k == len(vpReadOpNames)+2:
-		// a merge in which the segment is the LAST input and another input has a
-		// field the segment lacks (the merged field list must not be built inside
-		// an input's own field table)
-		vpNote("op:Merge(other fields, segment last)")
+	case k >= len(vpReadOpNames)+2:
+		// a merge in which the segment is the LAST / the FIRST input and another
+		// input has a field the segment lacks, sorting between the segment's own
+		// fields (the merged field list must not be built inside an input's own
+		// field table, whose backing array may have spare capacity)
 		other := []*vpDoc{{fields: []*vpField{{name: "aa", store: true, value: []byte("v"), length: 1, terms: []*vpTerm{{term: []byte("k"), freq: 1}}}}}}
 		so := vpBuild(other, 1025)
 		var buf bytes.Buffer
-		_, err := Merge([]segment.Segment{so, seg}, []*roaring.Bitmap{nil, bm}, 0).WriteTo(&buf, nil)
+		var err error
+		if k == len(vpReadOpNames)+2 {
+			vpNote("op:Merge(other fields, segment last)")
+			_, err = Merge([]segment.Segment{so, seg}, []*roaring.Bitmap{nil, bm}, 0).WriteTo(&buf, nil)
+		} else {
+			vpNote("op:Merge(other fields, segment first)")
+			_, err = Merge([]segment.Segment{seg, so}, []*roaring.Bitmap{bm, nil}, 0).WriteTo(&buf, nil)
+		}
 		vpAssert(err == nil || len(bmWant) == 3, "merge succeeds")
 	case k < len(vpReadOpNames):
 		vpNote("op:" + vpReadOpNames[k])
